@@ -141,6 +141,9 @@ pub struct Sim {
     pub chans: Vec<crate::simrt::ChanState>,
     pub stalled_ns: u64,
     pub late_ns: u64,
+    /// helper threads of this run are "fast": at an expired receive deadline they get to run as far
+    /// as they can before the receiver looks at the channel for the last time (drawn once per run)
+    pub helpers_fast: Option<bool>,
     pub sched_switches: u64,
     pub deadline_probe: Vec<(u64, u64)>,
     pub handoff_depth: u32,
@@ -207,6 +210,7 @@ impl Sim {
             chans: vec![],
             stalled_ns: 0,
             late_ns: 0,
+            helpers_fast: None,
             sched_switches: 0,
             deadline_probe: vec![],
             handoff_depth: 0,
